@@ -16,6 +16,7 @@ from .commons import (
     decode_unit,
     Field,
     get_format,
+    in_scale,
 )
 from .cov import load_cov
 
@@ -260,7 +261,9 @@ def _dumps_kvn(data, **kwargs):
 
         extras = {
             "START_TIME": "{:{}}".format(data.start, DATE_FMT_DEFAULT),
-            "STOP_TIME": "{:{}}".format(data.stop, DATE_FMT_DEFAULT),
+            "STOP_TIME": "{:{}}".format(
+                in_scale(data.stop, data.start.scale), DATE_FMT_DEFAULT
+            ),
             "INTERPOLATION": data.method.upper(),
         }
         if data.method != data.LINEAR:
@@ -273,7 +276,7 @@ def _dumps_kvn(data, **kwargs):
         for orb in data:
             text.append(
                 "{date:{dfmt}} {orb[0]:{fmt}} {orb[1]:{fmt}} {orb[2]:{fmt}} {orb[3]:{fmt}} {orb[4]:{fmt}} {orb[5]:{fmt}}".format(
-                    date=orb.date,
+                    date=in_scale(orb.date, data.start.scale),
                     orb=orb.base / units.km,
                     fmt=" 10f",
                     dfmt=DATE_FMT_DEFAULT,
@@ -287,7 +290,9 @@ def _dumps_kvn(data, **kwargs):
                     cov_text.append("")
 
                 cov_text.append(
-                    "EPOCH = {date:{dfmt}}".format(date=orb.date, dfmt=DATE_FMT_DEFAULT)
+                    "EPOCH = {date:{dfmt}}".format(
+                        date=in_scale(orb.date, data.start.scale), dfmt=DATE_FMT_DEFAULT
+                    )
                 )
 
                 if orb.cov.frame != orb.frame:
@@ -324,7 +329,9 @@ def _dumps_xml(data, **kwargs):
 
         extras = {
             "START_TIME": data.start.strftime(DATE_FMT_DEFAULT),
-            "STOP_TIME": data.stop.strftime(DATE_FMT_DEFAULT),
+            "STOP_TIME": in_scale(data.stop, data.start.scale).strftime(
+                DATE_FMT_DEFAULT
+            ),
             "INTERPOLATION": data.method.upper(),
         }
         if data.method != data.LINEAR:
@@ -337,7 +344,7 @@ def _dumps_xml(data, **kwargs):
         for el in data:
             statevector = ET.SubElement(data_tag, "stateVector")
             epoch = ET.SubElement(statevector, "EPOCH")
-            epoch.text = el.date.strftime(DATE_FMT_DEFAULT)
+            epoch.text = in_scale(el.date, data.start.scale).strftime(DATE_FMT_DEFAULT)
 
             elems = {
                 "X": "x",
@@ -359,7 +366,9 @@ def _dumps_xml(data, **kwargs):
                 cov = ET.SubElement(data_tag, "covarianceMatrix")
 
                 cov_date = ET.SubElement(cov, "EPOCH")
-                cov_date.text = el.date.strftime(DATE_FMT_DEFAULT)
+                cov_date.text = in_scale(el.date, data.start.scale).strftime(
+                    DATE_FMT_DEFAULT
+                )
 
                 if el.cov.frame != el.frame:
                     frame = el.cov.frame
